@@ -129,6 +129,16 @@ def impl_items(ctx, ex):
     if r["status"] != "ok" or len(its) < 2 or its[0]["canon"] != want:
         ctx.violation("B:C14:unknown-trait-in-list:#[derive_ex(PartialEq, Eq, Hash, Serialize)] " + src, "one mistake in the trait list: the item is re-emitted with the helper attributes of the other (well-formed) entries still on it - each of them cascades into `cannot find attribute`",
                       {"layer": "B", "args": "PartialEq, Eq, Hash, Serialize", "item": src, "expected_item": want, "got_item": its[0]["canon"] if its else None})
+    # owned helper names written in name-value form (`#[default = 5]`): refused, and - being derive_ex's own - not left on the re-emitted item
+    for args, src, stripped in [("Default", "struct X { #[default = 5] a: u8, /// doc\n b: u8 }", "struct X { a: u8, /// doc\n b: u8 }"),
+                                ("Debug, Clone", "#[debug = \"x\"] enum X { A, #[debug = 1] B(#[debug = 2] u8) }", "enum X { A, B(u8) }"),
+                                ("PartialEq, Hash", "struct X(#[eq = 1] u8, #[hash = 2] #[doc = \"d\"] u8);", "struct X(u8, #[doc = \"d\"] u8);")]:
+        r = ex.attr(args, src)
+        n += 1
+        its = r.get("items") or []
+        if r["status"] != "ok" or len(its) < 2 or its[0]["canon"] != norm(ex, stripped) or not any(i["kind"] == "compile_error" for i in its[1:]):
+            ctx.violation("B:C14:name-value-helper:%s:%s" % (args, src), "an owned helper attribute written as `name = value` must be refused and removed from the re-emitted item",
+                          {"layer": "B", "args": args, "item": src, "expected_item": norm(ex, stripped), "got": [i["canon"][:200] for i in its]})
     # error paths of impl items: the impl - with every foreign attribute, in order - is still emitted next to the compile error
     body = "{ type Output = X; #[inline] fn add(self, rhs: X) -> X { X(self.0 + rhs.0) } }"
     for pre, sib, post, args in [("/// doc\n #[allow(unused)] ", "#[derive_ex]", " #[cfg(all())] ", "Add"), ("#[doc = \"a\"] ", "#[derive_ex = 1]", "", "Add"), ("", "#[derive_ex::derive_ex]", " #[allow(dead_code)] /// d\n ", "AddAssign"),
